@@ -7,9 +7,12 @@ from props.C03 import components_by_search
 
 LEVEL = "exploration"
 LEVEL_TEXT = ("Deductive part (vcgen/z3, all inputs, over a line-sequence file model): write_changed_genotypes preserves earlier entries, writes the header once and exactly one row per change in order; ReadList.write appends exactly one line per read handed in, in order, attributed to the phase set (component + 1) of the read's first variant, with 1-based first/last positions; write_recombination_list appends to the file (earlier chromosomes' and families' entries stay, header only into an empty file) "
-              "exactly one row per event that find_recombination reports, trio by trio in order, with 1-based positions, and returns the number of rows (find_recombination "
-              "itself enters as an assumed deterministic function of its arguments) (contracts/phase_py.py). "
-              "Bounded stand-in (also for find_recombination): whole "
+              "exactly one row per event that find_recombination reports, trio by trio in order, with 1-based positions, and returns the number of rows (find_recombination enters there as a deterministic function of its arguments) (contracts/phase_py.py); "
+              "find_recombination itself (pedigree.py): every event it returns names two positions p1 < p2 of ONE block of the components with no other variant of that block "
+              "between them, at which the transmission value changes, with the transmitted haplotypes being the bits of the two transmission values and the cost that of p2 "
+              "- the statement's 'each listed recombination lies between two variants of one phase set' (contracts/pedigree_py.py: dict comprehension, defaultdict(list), in-place "
+              "sort and the final sort of the event objects are modelled; ghost counting functions over the dict's visiting order). "
+              "Bounded stand-in: whole "
               "`whatshap phase` runs on 2-3 chromosomes x 1-2 families (+ unrelated samples) with every combination of --output-read-list, --changed-genotype-list, "
               "--recombination-list, with and without --distrust-genotypes; the three lists are compared with expectations recomputed from the output VCF and from "
               "wrappers on the solver (reads handed over, partitioning, transmission vectors): entries for every processed chromosome and family, each listed read "
@@ -17,7 +20,7 @@ LEVEL_TEXT = ("Deductive part (vcgen/z3, all inputs, over a line-sequence file m
               "genotypes are trusted), each recombination lies between two variants of one phase set of a family member.")
 LEVEL_NOTE = "Seeded sampling. Trusted: independent VCF parser; wrappers substituted through module globals."
 TECHNIQUE = "bounded runtime contract on run_whatshap's list outputs against the output VCF and solver wrappers"
-D_MODULES = [("contracts.phase_py", ["write_changed_genotypes", "ReadList.write", "write_recombination_list"])]
+D_MODULES = [("contracts.phase_py", ["write_changed_genotypes", "ReadList.write", "write_recombination_list"]), ("contracts.pedigree_py", ["find_recombination"])]
 EXPLANATION = LEVEL_TEXT
 TRUSTED_BASE = ["scenario generators", "runtime/phase_driver.py wrappers"]
 ASSUMPTIONS = ["reads are phased-VCF pseudo reads (no BAM)"]
